@@ -12,7 +12,7 @@ ASCII_CLASSES = {
 }
 CHARSET: set[int] = set()  # set by the caller before exporting grammars that use Unicode property rules
 
-UNARY = {"opt", "star", "plus", "exact", "min", "max", "minmax", "and", "not", "push", "tag"}
+UNARY = {"opt", "star", "plus", "exact", "min", "max", "minmax", "and", "not", "push", "tag", "grp"}
 NARY = {"seq", "alt"}
 
 
@@ -97,6 +97,10 @@ def pe(e) -> str:  # noqa: PLR0911, PLR0912
         return f"PEEK[{a}..{b}]"
     if k == "tag":
         return f"#{e['t']} = {pe(e['e'])}"
+    if k == "grp":
+        return f"({pm(e['e'], 1)})"
+    if k == "cset":
+        return e["n"]
     raise ValueError(k)
 
 
